@@ -171,6 +171,33 @@ pub fn directed_programs(kinds: &[Kind], seed: u64) -> Vec<Program> {
                 p.ctor = Ctor::Slit(n);
                 out.push(p.clone());
                 p.ops = vec![Op::SlitSet(0, n - 1, 0x21), Op::SlitSet(n - 1, n - 1, 0x42), Op::SlitSet(n / 2, 0, 0xff), Op::SlitSet(0, 0, 11)];
+                out.push(p.clone());
+                // assignments to domains outside the matrix (refused or not, the table must stay
+                // valid), followed by an ordinary one
+                for (a, b) in [(n, 0), (n + 1, 0), (0, n), (n - 1, n + 1), (n, n), (2 * n + 1, n - 1)] {
+                    let mut q = p.clone();
+                    q.ops = vec![Op::SlitSet(0, n - 1, 0x21), Op::SlitSet(a, b, 77), Op::SlitSet(n - 1, 0, 0x33)];
+                    out.push(q);
+                }
+            }
+        }
+        if k == Kind::Hmat {
+            // a side cache at the limit of its 16-bit handle count (the helper then attempts one more,
+            // which must be refused without a trace), followed by an ordinary structure
+            let mut p = base.clone();
+            p.ops = vec![Op::HmatCache { pd: 1, size: 2, total: 1, level: 1, assoc: 1, policy: 1, line: 64, handles: (0..65_535u32).map(|i| i as u16).collect() }, Op::HmatProx(1, 2)];
+            out.push(p);
+        }
+        if k == Kind::Cedt {
+            let mut p = base.clone();
+            p.ops = vec![Op::Cxims { gran: 1, maps: (0..255u64).collect() }, Op::Chbs(1, 1, 0x1000)];
+            out.push(p);
+        }
+        if k == Kind::Fadt {
+            // every pub field of the builder written directly (index 42 is the checksum byte itself)
+            for i in 0..43u8 {
+                let mut p = base.clone();
+                p.ops = vec![Op::Fadt(FadtSet::Field(i, 0x5a5b_5c5d_5e5f_6061u64.wrapping_add(i as u64))), Op::Fadt(FadtSet::AcpiEnable)];
                 out.push(p);
             }
         }
